@@ -224,8 +224,36 @@ def big_unit_enum(prop, mode):
     return gen_from(prop, "wbigu", text_e, text_d, ["$m::Ty::V%d" % i for i in picks], traits, "enum", [])
 
 
+def mid_enums(prop, mode):
+    """200 variants (more than an i8, fewer than a u8 can count), without explicit discriminants: unit-only, and mixed"""
+    traits = [t for t in MODES[mode]]
+    out = []
+    for tag, mk in (("wmidu", lambda i: "V%d" % i), ("wmidm", lambda i: ("V%d" % i, "V%d(u8)" % i, "V%d { f: u8 }" % i, "V%d()" % i)[i % 4])):
+        vs = "".join("    %s,\n" % mk(i) for i in range(200))
+        text_e = "#[derive(::educe::Educe)]\n#[educe(%s)]\npub enum Ty {\n%s}\n" % (", ".join(traits), vs)
+        text_d = "#[derive(%s)]\npub enum Ty {\n%s}\n" % (", ".join(traits), vs)
+        picks = [0, 1, 126, 127, 128, 129, 130, 199]
+        ctors = []
+        for i in picks:
+            d = mk(i)
+            ctors.append("$m::Ty::" + (d.replace("(u8)", "(3)").replace("{ f: u8 }", "{ f: 3 }")))
+        out.append(gen_from(prop, tag, text_e, text_d, ctors, traits, "enum", []))
+    return out
+
+
+def case_enum(prop, mode):
+    """variant names that differ only in the case of their letters are different variants"""
+    traits = [t for t in MODES[mode]]
+    vs = "    MB(u8),\n    Mb(u8),\n    KB,\n    Kb,\n    Si { x: u8 },\n    SI { x: u8 },\n    r#si,\n"
+    pre = "#[allow(non_camel_case_types)]\n"
+    text_e = "#[derive(::educe::Educe)]\n" + pre + "#[educe(%s)]\npub enum Ty {\n%s}\n" % (", ".join(traits), vs)
+    text_d = "#[derive(%s)]\n" % ", ".join(traits) + pre + "pub enum Ty {\n%s}\n" % vs
+    ctors = ["$m::Ty::MB(1)", "$m::Ty::Mb(1)", "$m::Ty::KB", "$m::Ty::Kb", "$m::Ty::Si { x: 1 }", "$m::Ty::SI { x: 1 }", "$m::Ty::si"]
+    return gen_from(prop, "wcase", text_e, text_d, ctors, traits, "enum", [])
+
+
 def cases(seed, prop, n, mode):
-    out = [big_enum(prop, mode), big_unit_enum(prop, mode)]
+    out = [big_enum(prop, mode), big_unit_enum(prop, mode), case_enum(prop, mode)] + mid_enums(prop, mode)
     for k in range(n):
         c = gen(seed, prop, k, mode)
         if c is not None:
